@@ -471,3 +471,116 @@ func runKillHashing(sc *Scenario, out *Out) {
 		time.Sleep(5 * time.Millisecond)
 	}
 }
+
+// runTwoReaders (C10, "each priority is withdrawn exactly once"): reader A has
+// read a piece that was in memory (it registered nothing for it); the piece is
+// evicted; reader B asks for it and waits; A closes.  What A withdraws must be
+// what A registered: B's priority for the piece must still be in the table
+// once the loop has handled A's withdrawals.
+func runTwoReaders(sc *Scenario, out *Out) {
+	viol := func(key, what string) {
+		out.Violations = append(out.Violations, Viol{"C10", key, what, 0})
+	}
+	const ps = 32768
+	seed := uint64(sc.ID) + 91
+	t, err := mktor.New(mktor.Spec{Name: fmt.Sprintf("tr-%d", sc.ID), PieceLen: ps, Length: 4 * ps, Seed: seed}, "")
+	if err != nil {
+		out.Note = err.Error()
+		return
+	}
+	ctx, cancel := context.WithCancel(context.Background())
+	defer cancel()
+	t, err = tor.AddTorrent(ctx, t)
+	if err != nil {
+		out.Note = err.Error()
+		return
+	}
+	defer func() {
+		k, c2 := context.WithTimeout(context.Background(), 5*time.Second)
+		t.Kill(k)
+		c2()
+	}()
+	give := func(i int) {
+		for b := 0; b < ps; b += 16384 {
+			t.Pieces.AddData(uint32(i), uint32(b), content.Range(seed, int64(i*ps+b), 16384), 1)
+		}
+		t.Pieces.Finalise(uint32(i), t.PieceHashes[i])
+		t.Have(uint32(i), true)
+	}
+	parkedDo := func(f func()) {
+		g1, g2 := make(chan *peer.TorStats), make(chan *peer.TorStats)
+		t.Event <- peer.TorGetStats{Ch: g1}
+		t.Event <- peer.TorGetStats{Ch: g2}
+		<-g1
+		f()
+		<-g2
+	}
+	for _, p := range []int{1, 2} {
+		give(p)
+		t.GetStats()
+		// A reads inside piece p, which is in memory
+		a := t.NewReader(context.Background(), int64(p*ps+100), 1000)
+		buf := make([]byte, 500)
+		if n, err := a.Read(buf); err != nil || n == 0 {
+			out.Note = fmt.Sprintf("reader A: %d %v", n, err)
+			return
+		}
+		// the piece is evicted
+		t.Pieces.Expire(0, nil, func(i uint32) { t.Have(i, false) })
+		t.GetStats()
+		// B asks for it and waits
+		b := t.NewReader(context.Background(), int64(p*ps+200), 1000)
+		bdone := make(chan error, 1)
+		go func() {
+			_, err := b.Read(make([]byte, 100))
+			bdone <- err
+		}()
+		registered := false
+		for n := 0; n < 500 && !registered; n++ {
+			parkedDo(func() {
+				prio, _ := t.VerifRequested()
+				registered = len(prio[uint32(p)]) > 0
+			})
+			time.Sleep(2 * time.Millisecond)
+		}
+		if !registered {
+			out.Note = "reader B's request never reached the table"
+			return
+		}
+		var before, after []int8
+		// A closes while the loop is parked; the loop then handles A's withdrawals and parks again before
+		// anything B might do in reaction can be handled
+		g1, g2 := make(chan *peer.TorStats), make(chan *peer.TorStats)
+		t.Event <- peer.TorGetStats{Ch: g1}
+		t.Event <- peer.TorGetStats{Ch: g2}
+		<-g1
+		prio, _ := t.VerifRequested()
+		before = prio[uint32(p)]
+		a.Close()
+		g3, g4 := make(chan *peer.TorStats), make(chan *peer.TorStats)
+		t.Event <- peer.TorGetStats{Ch: g3}
+		t.Event <- peer.TorGetStats{Ch: g4}
+		<-g2
+		<-g3
+		prio, _ = t.VerifRequested()
+		after = prio[uint32(p)]
+		<-g4
+		if len(after) < len(before) {
+			viol("priority-withdrawn-by-another-consumer", fmt.Sprintf("reader B waits for piece %d with priorities %v registered; after reader A (which had read the piece while it was in memory and registered nothing) closed, the table holds %v", p, before, after))
+		}
+		// B is still served once the piece arrives
+		give(p)
+		select {
+		case err := <-bdone:
+			if err != nil {
+				viol("reader-error", fmt.Sprintf("reader B: %v", err))
+			}
+		case <-time.After(8 * time.Second):
+			viol("lost-wakeup", fmt.Sprintf("reader B is still blocked 8 s after piece %d was verified and announced", p))
+		}
+		b.Close()
+		if len(out.Violations) > 0 {
+			return
+		}
+	}
+}
